@@ -4,7 +4,9 @@ import (
 	"fmt"
 	"go/token"
 	"go/types"
+	"regexp"
 	"sort"
+	"strconv"
 	"strings"
 
 	"golang.org/x/tools/go/ssa"
@@ -668,6 +670,8 @@ func canonBool(f *qf) string {
 // normQF rewrites comparison atoms to a canonical spelling so that equivalent source forms give the same
 // proposition: (a != b) → ¬(a == b), (a > b) → (b < a), (a >= b) → ¬(a < b), (a <= b) → ¬(b < a);
 // operands of == are sorted by canonAtom.
+var constCmpRe = regexp.MustCompile(`^\((-?\d+) (==|!=|<|<=|>|>=) (-?\d+)\)$`)
+
 func normQF(q *qf) *qf {
 	if q == nil {
 		return nil
@@ -676,6 +680,30 @@ func normQF(q *qf) *qf {
 		a := q.Atom
 		if r, ok := cmpCompareAtom(a); ok {
 			return normQF(&qf{Op: "atom", Atom: r})
+		}
+		// a comparison of two integer literals (an enum parameter bound to a constant by inlining)
+		if m := constCmpRe.FindStringSubmatch(a); m != nil {
+			x, _ := strconv.ParseInt(m[1], 10, 64)
+			y, _ := strconv.ParseInt(m[3], 10, 64)
+			v := false
+			switch m[2] {
+			case "==":
+				v = x == y
+			case "!=":
+				v = x != y
+			case "<":
+				v = x < y
+			case "<=":
+				v = x <= y
+			case ">":
+				v = x > y
+			case ">=":
+				v = x >= y
+			}
+			if v {
+				return qTrue()
+			}
+			return qFalse()
 		}
 		if strings.HasPrefix(a, "(") && strings.HasSuffix(a, ")") {
 			inner := a[1 : len(a)-1]
